@@ -20,7 +20,11 @@ CHECK_DEADLOCK FALSE
 """
 E_PALETTE = ["(1/0 == 1)", "(9223372036854775807 + 1 > 0)", "([true][5])", '({"a": true}["b"])', "undeclared_var",
              "unknown_fn(1)", '(int("x") == 1)', '(1 < "a")', "(1 % 0 == 0)", "(-(-9223372036854775807 - 1) == 1)",
-             '("a".matches("("))', "(0u - 1u == 0u)", "[1, 2].exists(z, z / 0 == 1)"]
+             '("a".matches("("))', "(0u - 1u == 0u)", "[1, 2].exists(z, z / 0 == 1)",
+             # failures raised by the libraries underneath (exception classes of pendulum / codecs, not the built-in ones)
+             '(timestamp("x") == timestamp("x"))', '(string(b"\\xff") == "a")', '(duration("1x") == duration("1s"))',
+             '(timestamp("9999-12-31T23:59:59Z") + duration("1s") == timestamp("0001-01-01T00:00:00Z"))', '({"a": 1}.b == 1)', '(double("1e") == 1.0)',
+             '(timestamp("2023-02-30T00:00:00Z").getFullYear() == 2023)', '(bool("maybe"))']
 T_PALETTE = ["true", "(1 == 1)", "tt", '("a" in ["a"])']
 F_PALETTE = ["false", "(1 == 2)", "ff", "!true"]
 N1 = ["1", "[true]"]
@@ -225,7 +229,7 @@ def run(ctx: Ctx) -> int:
     ctx.cov["trace_events"] = len(lines)
     ctx.cov["trace_events_indefinite"] = cons[3]
     ctx.assumptions += ["outcomes the statement does not fix (true && 1, error && 1, !1) are marked indefinite in the spec and not compared",
-                        "error leaves are realised by a palette of 13 failing sub-expressions in rotation, not by every conceivable failure"]
+                        "error leaves are realised by a palette of 21 failing sub-expressions in rotation, not by every conceivable failure"]
     return ctx.finish(rule="TLC enumerates every linear nesting of && || ! ?: over leaf classes {T,F,E,N1,N2} up to the size bound and every "
                            "element-outcome list for all()/exists(); each is rendered to CEL (leaf palette in rotation) and evaluated under both "
                            "runners; random non-linear programs are validated by Trace_C02. distinct = distinct programs",
